@@ -1259,3 +1259,21 @@ Proof.
   exists t. rewrite E. split; [apply in_or_app; now left|]. split; [|exact Ht].
   rewrite Forall_forall in Hb. now destruct (Hb t Hin).
 Qed.
+
+(* ================================================================ 10. the whitespace class is pinned *)
+(* "every byte is whitespace or in exactly one token" only means something for a FIXED whitespace class: the
+   generated isWhiteSpace (skipWhitespace's predicate) is exactly {space, tab, LF, CR} on all 256 byte values.
+   A theorem about the generated table: any change of the class in lexer.go breaks it. *)
+Definition all_bytes : list N := map N.of_nat (seq 0 256).
+Definition is_space_tab_lf_cr (b : N) : bool := (b =? 32) || (b =? 9) || (b =? 10) || (b =? 13).
+
+Lemma whitespace_table :
+  forallb (fun b => Bool.eqb (isWhiteSpace b) (is_space_tab_lf_cr b)) all_bytes = true.
+Proof. vm_compute. reflexivity. Qed.
+
+Lemma whitespace_pinned (b : N) : b < 256 -> isWhiteSpace b = is_space_tab_lf_cr b.
+Proof.
+  intros H. pose proof whitespace_table as T. rewrite forallb_forall in T.
+  apply Bool.eqb_prop. apply T. unfold all_bytes. apply in_map_iff.
+  exists (N.to_nat b). split; [apply N2Nat.id|]. apply in_seq. lia.
+Qed.
